@@ -265,7 +265,7 @@ func (m *Machine) mergeValues(c *Term, a, b Value) (Value, bool) {
 		}
 	case *SliceV:
 		y, ok := b.(*SliceV)
-		if ok && *x == *y {
+		if ok && x.Arr == y.Arr && x.Off == y.Off && x.Len == y.Len && x.Cap == y.Cap && ptrEq(&Ptr{Obj: x.Arr, Path: x.Base}, &Ptr{Obj: y.Arr, Path: y.Base}) {
 			return x, true
 		}
 	case *MapV:
